@@ -955,7 +955,9 @@ func (sb *seqbag) Translate(phase int, geneticcode int) (err error) {
 			}
 		}
 	}
-	sb.AutoAlphabet()
+	// The sequences are now amino acids (auto detection would label a protein made only of
+	// letters shared by both alphabets, such as K or AGT, as nucleotides)
+	sb.alphabet = AMINOACIDS
 
 	return
 }
